@@ -56,7 +56,26 @@ def gen_family(rng):
     return bsz, container, style, n0
 
 
-def gen_log(rng, bsz, style, nblocks):
+def gen_fmt(seed, i):
+    return STAMP_FORMATS[core.derive(seed, "C17|fmt|%d" % i) % len(STAMP_FORMATS)]
+
+
+MONTHS = ("Jan", "Feb", "Mar", "Apr", "May", "Jun", "Jul", "Aug", "Sep", "Oct", "Nov", "Dec")
+STAMP_FORMATS = ("slash", "slash", "iso", "yy")
+
+
+def stamp_fmt(t, fmt):
+    """the same instant in three of the notations s4 knows: the generator's usual one, ISO 8601 with zone, and the
+    two-digit-year form `[01-Jan-00 00:00:01]` (a year is present, so nothing has to be read ahead to find one)"""
+    if fmt == "slash":
+        return world.stamp(t, 0, 1, 3)
+    y, mo, d, h, mi, sec, ns = world.civil(t, 0)
+    if fmt == "iso":
+        return b"%04d-%02d-%02dT%02d:%02d:%02d.%03d+00:00" % (y, mo, d, h, mi, sec, ns // 1_000_000)
+    return b"[%02d-%s-%02d %02d:%02d:%02d]" % (d, MONTHS[mo - 1].encode(), y % 100, h, mi, sec)
+
+
+def gen_log(rng, bsz, style, nblocks, fmt="slash"):
     """text log of about nblocks blocks with the style's line-length distribution"""
     target = nblocks * bsz
     p = world.TextLogParams(notation=1, n_msgs=1, src_letter=b"L")
@@ -67,7 +86,7 @@ def gen_log(rng, bsz, style, nblocks):
     maxmsg = 0
     while len(out) < target:
         t += 1_000_000_000
-        head = world.stamp(t, 0, 1, 3) + b" L" + world.tag26(i, 4)
+        head = stamp_fmt(t, fmt) + b" L" + world.tag26(i, 4)
         if style == "short" or (i == 0 and style != "tiling"):
             # (the first line always fits block zero: known finding F-C12a is not this property's business)
             blen = rng.randint(0, 10)
@@ -141,6 +160,7 @@ def density_bounds(msgs, bsz, nblocks, windowed):
 def run_case(seed, i, tier):
     rng = core.rng_for(seed, PROP, i)
     bsz, container, style, n0 = gen_family(rng)
+    fmt = gen_fmt(seed, i)
     if tier != "quick" and rng.random() < 0.3:
         n0 *= 5
     pol = rng.choice(("starve:0", "starve:0", "starve:2", "random", "rr", "first:2", "pct"))
@@ -154,7 +174,7 @@ def run_case(seed, i, tier):
     lrng_seed = rng.getrandbits(62)
     for mult in (1, 2, 4):
         lrng = core.random.Random(lrng_seed)    # same stream: the 2n log extends the n log's distribution
-        content, msgs, maxmsg = gen_log(lrng, bsz, style, n0 * mult)
+        content, msgs, maxmsg = gen_log(lrng, bsz, style, n0 * mult, fmt)
         stored, descr = world.random_container(core.random.Random(lrng_seed + 1), container, content, 0, "big.log")
         path = "big.log" + world.SUFFIX[container]
         srcs = [merge.Source(path, "text", msgs, stored, content, container, descr)]
@@ -207,12 +227,12 @@ def run_case(seed, i, tier):
                 "bsz": bsz, "style": style, "n0": n0, "mult": mult, "container": container, "windowed": windowed,
                 "base_marks": marks.get(1), "maxmsg": maxmsg},
                 "sources_unfiltered": mergecheck.sources_to_json([merge.Source(path, "text", msgs, stored, content, container, descr)]) if windowed else None})
-            cr.violations.append(Violation(cls, "style=%s container=%s bsz=%d policy=%s n0=%d x%d: %s" % (
-                style, container, bsz, pol, n0, mult, detail), rp, known=known))
+            cr.violations.append(Violation(cls, "style=%s stamps=%s container=%s bsz=%d policy=%s n0=%d x%d: %s" % (
+                style, fmt, container, bsz, pol, n0, mult, detail), rp, known=known))
         if vs:
             break
     if True:
-        cr.sample = {"bsz": bsz, "container": container, "style": style, "blocks": [n0, 2 * n0, 4 * n0], "policy": pol,
+        cr.sample = {"bsz": bsz, "container": container, "style": style, "stamp_format": fmt, "blocks": [n0, 2 * n0, 4 * n0], "policy": pol,
                      "second_source": second, "marks": {str(k): v for k, v in marks.items()}}
     return cr
 
